@@ -158,9 +158,11 @@ def r1(ctx):
                 and n.ast.left.id in cfgvars and const(n.ast.comparators[0]) is None \
                 and isinstance(n.ast.ops[0], (ast.Is, ast.IsNot)):
             tests.append(n)
-    ctx.require(len(tests) == 1, "C28.R1: `<config> is (not) None` test not found in get_binding_config")
-    t = tests[0]
-    none_edge = "t" if isinstance(t.ast.ops[0], ast.Is) else "f"
+    ctx.require(len(tests) >= 1, "C28.R1: `<config> is (not) None` test not found in get_binding_config")
+
+    def none_edge(t):
+        return "t" if isinstance(t.ast.ops[0], ast.Is) else "f"
+
     fallback = []
     for r in (n for n in f.body_nodes() if isinstance(n, ast.Return) and n.value is not None):
         for o in origins(f, r.value):
@@ -175,17 +177,17 @@ def r1(ctx):
             if len(elts) == 1 and isinstance(elts[0], ast.Call) and resolves_to(p, f, elts[0], LOCAL) \
                     and not elts[0].args and not elts[0].keywords:
                 fallback.append(r)
-    ok = len(fallback) >= 1 and all(any(only_via(g, t.id, none_edge, i) for i in g.ids_of(r)) for r in fallback)
-    # and the not-None outcome never reaches the function exit through the fallback
+    # the fallback is reached only through the `is None` outcome of such a test ...
+    ok = len(fallback) >= 1 and all(
+        any(only_via(g, t.id, none_edge(t), i) for t in tests for i in g.ids_of(r)) for r in fallback)
     ctx.ob("R1", "no binding on the path and its ancestors => BindingConfig(targets=[LocalTarget()])", ok, func=f,
-           node=t.ast, instance="gbc:fallback",
+           node=tests[0].ast, instance="gbc:fallback",
            message="the local-execution fallback is missing or not tied to the `no binding found` outcome")
-    # the None outcome must end in the fallback return (not in another return)
-    none_succ = branch(g, t.id, none_edge)
+    # ... and the `is None` outcome (of the first such test) always ends in the fallback return
     fb_ids = [i for r in fallback for i in g.ids_of(r)]
     ctx.ob("R1", "the `no binding` outcome always ends in the LocalTarget fallback",
-           bool(fb_ids) and all(must_pass(g, s, [g.exit], fb_ids) for s in none_succ), func=f, node=t.ast,
-           instance="gbc:fallback-total")
+           bool(fb_ids) and any(all(must_pass(g, s, [g.exit], fb_ids) for s in branch(g, t.id, none_edge(t))) for t in tests),
+           func=f, node=tests[0].ast, instance="gbc:fallback-total")
 
     # ---- propagate: overwrite-and-continue walk
     f = p.func(PROP)
@@ -225,6 +227,7 @@ def r1(ctx):
             form = "get"
         ctx.ob("R1", "the candidate is taken from the current node under the requested key", form is not None, func=f,
                node=d.stmt, instance="propagate:source", message=f"`{unparse(d.stmt)}` does not read `{nodevar}[{key_p}]`")
+        okg = form == "get"  # dict.get(key, candidate) keeps the candidate when the key is absent
         if form == "subscript":
             guards = [
                 n for n in g.nodes.values()
@@ -233,8 +236,8 @@ def r1(ctx):
                 and is_name(n.ast.comparators[0], nodevar)
             ]
             okg = any(only_via(g, t.id, "t" if isinstance(t.ast.ops[0], ast.In) else "f", a_id) for t in guards)
-            ctx.ob("R1", "overwrite happens exactly when the node carries the key", okg, func=f, node=d.stmt,
-                   instance="propagate:guard")
+        ctx.ob("R1", "overwrite happens exactly when the node carries the key", okg, func=f, node=d.stmt,
+               instance="propagate:guard")
         ctx.ob("R1", "the node is entered before its own binding is examined (own path wins)",
                g.path(it, [a_id], avoid=[d_id]) is None, func=f, node=d.stmt, instance="propagate:descent-first",
                message="the candidate is read before descending: a step's own binding is not seen")
@@ -590,7 +593,7 @@ def r4(ctx):
 
 
 RULES = [("R1", r1), ("R2", r2), ("R3", r3), ("R4", r4)]
-FLOORS = {"R1": 14, "R2": 11, "R3": 6, "R4": 6}
+FLOORS = {"R1": 14, "R2": 10, "R3": 6, "R4": 6}
 
 _FALLBACK_OLD = "        return BindingConfig(targets=targets, filters=[FilterConfig(name=c.name, type=c.type, config=c.config) for c in config.get('filters')])\n    else:\n        return BindingConfig(targets=[LocalTarget()])"
 
